@@ -178,9 +178,23 @@ func (d Diff) String() string {
 	return s + " " + d.Comp + ": " + d.Msg
 }
 
+// WitnessMode: a witness (or any replay file) is being re-executed: every rule
+// is evaluated, listed findings included.
+var WitnessMode bool
+
+// OrderSkipped counts order checks not made because of the listed finding.
+var OrderSkipped int
+
 // orderOK: seq is monotone in the typed sort key (ties free).
 func orderOK(items []Item, rng *KeyDef, back bool) bool {
 	if rng == nil {
+		return true
+	}
+	if (rng.Type == "N" || rng.Type == "B") && KnownTriggers["number-sort-key-order"] && !WitnessMode {
+		// listed finding (number/binary sort keys are ordered by their text): every
+		// violation of the order clause over such a key satisfies its trigger, so it
+		// is not raised - the run goes on and the result SET is still checked
+		OrderSkipped++
 		return true
 	}
 	for i := 1; i < len(items); i++ {
